@@ -880,6 +880,7 @@ class virtualNode(pb.Root):
             # Remove the qubit form the list of simulated qubits
             self._logger.debug(f"removing qubit {delQubit.simNum} from {self.simQubits}")
             self.simQubits.remove(delQubit)
+            delQubit.active = False
 
         finally:
             # Release all relevant qubits again
@@ -1358,6 +1359,7 @@ class virtualQubit(pb.Referenceable):
         locked_node = yield self._lock_simulating_node()
         yield call_method(self.simQubit, "lock")
 
+        outcome = None
         try:
             active = yield call_method(self.simQubit, "isActive")
             if active:
@@ -1368,6 +1370,7 @@ class virtualQubit(pb.Referenceable):
 
                     # Delete from virtual qubits
                     self.virtNode.root.virtQubits.remove(self)
+                    self.active = 0
         finally:
             yield call_method(self.simQubit, "unlock")
             assert locked_node == self.simNode, "Something went wrong"
